@@ -160,10 +160,10 @@ Definition site_2 : list instr :=
   [IAlloc []; IView true true [0%nat]; IFlatten 2%nat; IAlloc []; IWrite 3%nat 0%nat []; IWrite 3%nat 0%nat []; IAlloc []; IWrite 4%nat 0%nat []; IAlloc []; IWrite 5%nat 0%nat []; IWrite 4%nat 0%nat []; IWrite 4%nat 0%nat []; IWrite 4%nat 0%nat []; IAlloc []; IWrite 6%nat 0%nat []; IFlatten 2%nat; IAlloc []; IFlatten 7%nat; IWrite 7%nat 0%nat []; IWrite 7%nat 0%nat []; IFlatten 7%nat; IAlloc []; IWrite 8%nat 0%nat []; IAlloc []; IWrite 9%nat 0%nat []; IWrite 8%nat 0%nat []; IWrite 8%nat 0%nat []; IWrite 8%nat 0%nat []; IWrite 1%nat 0%nat []; IView true true [0%nat]; IWrite 10%nat 0%nat []; IWrite 10%nat 0%nat []; IAlloc []; IWrite 11%nat 0%nat []; IAlloc []; IWrite 12%nat 0%nat []; IWrite 11%nat 0%nat []; IWrite 11%nat 0%nat []; IWrite 11%nat 0%nat []; IAlloc []; IWrite 13%nat 0%nat []; IWrite 1%nat 0%nat []].
 (* site 3: str_to_int_with_missing — bionumpy.io.strops:str_to_int_with_missing *)
 Definition site_3 : list instr :=
-  [IAlloc []; IAlloc []; IWrite 2%nat 0%nat []; IWrite 2%nat 0%nat []; IFlatten 2%nat; IAlloc []; IWrite 3%nat 0%nat []; IAlloc []; IWrite 4%nat 0%nat []; IWrite 3%nat 0%nat []; IWrite 3%nat 0%nat []; IWrite 3%nat 0%nat []; IWrite 1%nat 0%nat []].
+  [IAlloc []; IView true true [0%nat]; IFlatten 2%nat; IWrite 1%nat 0%nat []; IAlloc []; IAlloc []; IFlatten 4%nat; IWrite 4%nat 0%nat []; IWrite 4%nat 0%nat []; IFlatten 4%nat; IAlloc []; IWrite 5%nat 0%nat []; IAlloc []; IWrite 6%nat 0%nat []; IWrite 5%nat 0%nat []; IWrite 5%nat 0%nat []; IWrite 5%nat 0%nat []; IWrite 3%nat 0%nat []].
 (* site 4: str_to_float_with_missing — bionumpy.io.strops:str_to_float_with_missing *)
 Definition site_4 : list instr :=
-  [IAlloc []; IView true true [0%nat]; IAlloc []; IView true true [2%nat]; IFlatten 4%nat; IAlloc []; IWrite 5%nat 0%nat []; IWrite 5%nat 0%nat []; IAlloc []; IWrite 6%nat 0%nat []; IAlloc []; IWrite 7%nat 0%nat []; IWrite 6%nat 0%nat []; IWrite 6%nat 0%nat []; IWrite 6%nat 0%nat []; IAlloc []; IWrite 8%nat 0%nat []; IFlatten 4%nat; IAlloc []; IFlatten 9%nat; IWrite 9%nat 0%nat []; IWrite 9%nat 0%nat []; IFlatten 9%nat; IAlloc []; IWrite 10%nat 0%nat []; IAlloc []; IWrite 11%nat 0%nat []; IWrite 10%nat 0%nat []; IWrite 10%nat 0%nat []; IWrite 10%nat 0%nat []; IWrite 3%nat 0%nat []; IView true true [2%nat]; IWrite 12%nat 0%nat []; IWrite 12%nat 0%nat []; IAlloc []; IWrite 13%nat 0%nat []; IAlloc []; IWrite 14%nat 0%nat []; IWrite 13%nat 0%nat []; IWrite 13%nat 0%nat []; IWrite 13%nat 0%nat []; IAlloc []; IWrite 15%nat 0%nat []; IWrite 3%nat 0%nat []; IWrite 1%nat 0%nat []].
+  [IAlloc []; IView true true [0%nat]; IFlatten 2%nat; IWrite 1%nat 0%nat []; IAlloc []; IView true true [0%nat]; IAlloc []; IView true true [4%nat]; IFlatten 6%nat; IAlloc []; IWrite 7%nat 0%nat []; IWrite 7%nat 0%nat []; IAlloc []; IWrite 8%nat 0%nat []; IAlloc []; IWrite 9%nat 0%nat []; IWrite 8%nat 0%nat []; IWrite 8%nat 0%nat []; IWrite 8%nat 0%nat []; IAlloc []; IWrite 10%nat 0%nat []; IFlatten 6%nat; IAlloc []; IFlatten 11%nat; IWrite 11%nat 0%nat []; IWrite 11%nat 0%nat []; IFlatten 11%nat; IAlloc []; IWrite 12%nat 0%nat []; IAlloc []; IWrite 13%nat 0%nat []; IWrite 12%nat 0%nat []; IWrite 12%nat 0%nat []; IWrite 12%nat 0%nat []; IWrite 5%nat 0%nat []; IView true true [4%nat]; IWrite 14%nat 0%nat []; IWrite 14%nat 0%nat []; IAlloc []; IWrite 15%nat 0%nat []; IAlloc []; IWrite 16%nat 0%nat []; IWrite 15%nat 0%nat []; IWrite 15%nat 0%nat []; IWrite 15%nat 0%nat []; IAlloc []; IWrite 17%nat 0%nat []; IWrite 5%nat 0%nat []; IWrite 3%nat 0%nat []].
 (* site 5: ints_to_strings — bionumpy.io.strops:ints_to_strings *)
 Definition site_5 : list instr :=
   [IAlloc []; IWrite 1%nat 0%nat []; IAlloc []; IWrite 2%nat 0%nat []; IWrite 1%nat 0%nat []; IWrite 1%nat 0%nat []; IWrite 1%nat 0%nat []; IAlloc []; IFlatten 3%nat; IView false true [3%nat]; IView false true [4%nat]; IView false true [3%nat]; IView false true [5%nat; 6%nat]; IFlatten 7%nat; IAlloc []; IView false true [8%nat]; IView false true [8%nat]; IView false true [7%nat]; IView false true [10%nat; 11%nat]; IPick 0%nat [9%nat; 12%nat]; IWrite 13%nat 0%nat []].
@@ -244,7 +244,7 @@ Definition lookup_site (sid : Z) : option (nat * list instr) :=
 
 (* THE SWITCH.  false: the model is the code as it is at /repo HEAD (site 14 writes its argument).
    true: the model of the tree after notes/C20.fix-1.diff.  Nothing else has to change. *)
-Definition fix1_applied : bool := false.
+Definition fix1_applied : bool := true.
 
 (* site 14 is the one site that is NOT safe at HEAD: _GenotypeRowEncoding.encode replaces "\n" by "\t" in
    place on genotype_rows.ravel(), which is the argument's own buffer when the argument is contiguous and
@@ -252,6 +252,9 @@ Definition fix1_applied : bool := false.
    `site_14` is the program of the code as it is; `site_14_fixed` is the program after notes/C20.fix-1.diff. *)
 Definition site_14_fixed : list instr :=
   [IAlloc []; IView false true [1]; IPick 0 [0; 2]; IFlatten 3].
+(* site 13 (VCF genotype matrix buffer: get_data) inlines the same encode; its program after the fix *)
+Definition site_13_fixed : list instr :=
+  [IAlloc []; IWrite 1%nat 0%nat []; IView false true [0%nat]; IAlloc []; IView true true [2%nat; 3%nat]; IAlloc []; IView false true [5%nat]; IPick 0%nat [4%nat; 6%nat]; IFlatten 7%nat].
 
 (* ---------------------------------------------------------------- executable model of one call *)
 (* The harness observes the buffers reachable from the arguments (k of them), whether the argument object was a
@@ -273,7 +276,9 @@ Definition model_prog_fixed (sid : Z) (txt : block) : list instr :=
 Definition model_prog_sel (sid : Z) (txt : block) : list instr :=
   if fix1_applied then model_prog_fixed sid txt else model_prog sid txt.
 Definition lookup_site_sel (sid : Z) : option (nat * list instr) :=
-  if fix1_applied && Z.eqb sid 14%Z then Some (1, site_14_fixed) else lookup_site sid.
+  if fix1_applied && Z.eqb sid 14%Z then Some (1, site_14_fixed)
+  else if fix1_applied && Z.eqb sid 13%Z then Some (1, site_13_fixed)
+  else lookup_site sid.
 
 (* decidable equality of programs (the extracted program against the pinned one) *)
 Definition nat_list_eqb := list_eqb Nat.eqb.
